@@ -181,6 +181,19 @@ where
                 if out.len() != sout.len() || out.iter().zip(sout.iter()).any(|(a, b)| a.len() != b.len() || a.iter().zip(b.iter()).any(|(x, y)| !same_bits(*x, *y))) {
                     return Err(viol("float_slice_values", format!("reused float-slice evaluator (len {len}) disagrees with fresh objects"), &step_log));
                 }
+                // the very same call once more (same tape, same length, same
+                // output count: whatever the evaluator cached must still hold)
+                if rng.chance(0.3) {
+                    step_log.push(format!("float slice eval fn{k} len {len} repeated"));
+                    let again: Vec<Vec<f32>> = guard::with_guard(Flush::End, || {
+                        fe.eval(&tape, &cols).map(|o| (0..o.len()).map(|i| o[i].to_vec()).collect())
+                    })
+                    .map_err(|e| viol("eval_error", e.to_string(), &step_log))?;
+                    st.inc("steps_float_slice_eval_repeated");
+                    if again.len() != sout.len() || again.iter().zip(sout.iter()).any(|(a, b)| a.len() != b.len() || a.iter().zip(b.iter()).any(|(x, y)| !same_bits(*x, *y))) {
+                        return Err(viol("float_slice_values_repeated_call", format!("the same float-slice call (len {len}) repeated on the same evaluator disagrees with fresh objects"), &step_log));
+                    }
+                }
                 spare_tape_storage.extend(tape.recycle());
                 let gcols: Vec<Vec<Grad>> = cols.iter().enumerate().map(|(i, c)| c.iter().map(|v| Grad::new(*v, (i % 3 == 0) as u8 as f32, (i % 3 == 1) as u8 as f32, (i % 3 == 2) as u8 as f32)).collect()).collect();
                 let ts = take_tape_storage(rng, &mut spare_tape_storage, st);
